@@ -49,6 +49,7 @@ def run(tier):
     events = []
     nid = 0
     fam_inputs = {}
+    excluded_timing = []
     for fi, inputs in enumerate(fams, 1):
         p1 = os.path.join(wd, "plan1_%d.json" % fi)
         with open(p1, "w") as f:
@@ -83,9 +84,19 @@ def run(tier):
         for e in common.read_ndjson(log2):
             if e["ev"] == "row":
                 by_run.setdefault(e["run"], []).append(e)
+        fam_events = [events[-1]]
         for k, t in enumerate(ts, 1):
             nid += 1
             events.append({"ev": "run", "id": nid, "fam": fi, "t_raw": repr(t), "rows": _rows_event(by_run.get(k, []), t)})
+            fam_events.append(events[-1])
+        # rows that hit a wall-clock budget in any run are not reproducible: drop that position everywhere
+        n0 = len(fam_events[0]["rows"])
+        if all(len(e["rows"]) == n0 for e in fam_events):
+            flaky = {j for e in fam_events for j, r in enumerate(e["rows"]) if "timeout" in r["issue"].lower()}
+            if flaky:
+                for e in fam_events:
+                    e["rows"] = [r for j, r in enumerate(e["rows"]) if j not in flaky]
+                excluded_timing.extend(sorted(flaky))
         fam_inputs[fi] = (inputs, len(confs), len(ts))
     log = os.path.join(wd, "c13.ndjson")
     common.write_ndjson(log, events)
@@ -104,7 +115,7 @@ def run(tier):
                  group=clause, replay={"inputs": fam_inputs[e["fam"]][0], "threshold": float(e["t_raw"]),
                                        "input": x.get("input")})
     mcs_rows = sum(1 for e in events if e["ev"] == "ref" for r in e["rows"] if r["by"] == "mcs-based")
-    rep.extra.update({"families": len(fams), "runs": len(events), "mcs_rows_in_reference": mcs_rows,
+    rep.extra.update({"families": len(fams), "runs": len(events), "rows_excluded_for_wallclock_timeouts": len(excluded_timing), "mcs_rows_in_reference": mcs_rows,
                       "thresholds_per_family": [fam_inputs[k][2] for k in fam_inputs],
                       "distinct_confidences": [fam_inputs[k][1] for k in fam_inputs]})
     rep.sample({"ref_rows": events[0]["rows"][:3]})
